@@ -390,6 +390,18 @@ def result_leaves(m, n_id, mp_local):
         if k == 'MethodCall' and callee_is(e, 'Cast::cast', 'Number::f64') and len(e['ch']) == 1:
             leaves(e['ch'][0], gated, depth + 1)
             return
+        if k == 'Field' and str(e.get('field', '')).isdigit():
+            # `fit.0` of `let fit = if gate { (a, b, c) } else { (NAN, NAN, NAN) };`
+            b_ = peel(e['ch'][0])
+            if b_.get('k') == 'Path' and b_.get('res') == 'local' and b_['local'] in lets and \
+                    b_['local'] not in m.captured and b_['local'] not in assigns:
+                s, g0 = lets[b_['local']]
+                if s['pat'].get('k') == 'Binding' and 'init' in s:
+                    if (b_['local'], e['field']) in seen:
+                        return
+                    seen.add((b_['local'], e['field']))
+                    leaves(s['init'], gated or g0, depth + 1, int(e['field']))
+                    return
         if k == 'Path' and e.get('res') == 'local' and e['local'] in m.captured:
             # a captured immutable constant of the enclosing function (`let nan = f64::NAN;`)
             for s_ in m.k.pre:
